@@ -188,7 +188,9 @@ class C13(Check):
     theorems = ["Pox.C13.dispatch_agrees", "Pox.C13.classes_agree", "Pox.C13.requests_handled", "Pox.C13.consts_spec",
                 "Pox.C13.one_reply", "Pox.C13.stats_spec", "Pox.C13.silent_kinds", "Pox.C13.handled", "Pox.C13.never_fails", "Pox.C13.order", "Pox.C13.stream_concat",
                 "Pox.C13.barrier_after", "Pox.C13.errors_spec", "Pox.C13.replies_carry_xid", "Pox.C13.set_config_visible",
-                "Pox.C13.unhandled_type_fails"]
+                "Pox.C13.unhandled_type_fails",
+                "Pox.C13.history_answered", "Pox.C13.allAnswered_index", "Pox.C13.history_barrier", "Pox.C13.step_cases", "Pox.C13.history_ident",
+                "Pox.C13.features_after_history", "Pox.C13.config_after_history"]
     anchors = [("pox/datapaths/switch.py", "SoftwareSwitchBase." + m) for m in (
                    "__init__", "rx_message", "send", "_rx_hello", "_rx_echo_request", "_rx_features_request", "_rx_flow_mod", "_rx_packet_out",
                    "_rx_echo_reply", "_rx_barrier_request", "_rx_get_config_request", "_rx_stats_request", "_rx_set_config", "_rx_port_mod",
@@ -206,7 +208,11 @@ class C13(Check):
                   "never_fails — no internal failure for any decodable message of the 13 types; order/stream_concat/barrier_after — the stream is the concatenation of the per-request "
                   "groups and a barrier reply follows everything earlier, emitted in the state that holds all earlier effects; errors_spec — each invalid port/queue/command/stats "
                   "type/vendor/action class maps to the error type and code of OpenFlow 1.0; dispatch_agrees/classes_agree/requests_handled — the model's tables equal what the "
-                  "translator reads off the live switch object now, and every controller-to-switch type of the standard has a handler.")
+                  "translator reads off the live switch object now, and every controller-to-switch type of the standard has a handler. "
+                  "Over whole histories: history_answered (every request of every admissible history is answered exactly once, with its xid, groups in request order), "
+                  "history_barrier (a barrier reply follows the complete answers to everything before it), history_ident / features_after_history (datapath id, buffer count, "
+                  "capability bits and the ports' numbers and addresses reported by a features reply are those of the initial switch after any history), "
+                  "config_after_history (get-config reports the last set_config of the history).")
     level_note = ("Proved about the model only; the model is tied to the code by (a) the `decide` obligations over regenerated data and (b) the correspondence run. "
                   "Abstractions: matches are {all-wildcard, in_port=k}; actions are (type, output port); enqueue and output:TABLE are outside (C12) and excluded by the InScope "
                   "hypothesis; malformed bodies are C10's; reply payload bytes beyond the compared key fields are C01's. The model follows the REPAIRED code "
@@ -359,7 +365,8 @@ class C13(Check):
         if unhandled and kind is None and rng.random() < 0.04: k = "unhandled"
         x = self._xid(rng)
         m = {"k": k, "xid": x}
-        if k in ("echo_request", "echo_reply"): m["body"] = ofgen.rbytes(rng, rng.choice([0, 1, 8, rng.randint(0, 40)])).hex()
+        if k in ("echo_request", "echo_reply"):
+            m["body"] = ofgen.rbytes(rng, rng.choice([0, 1, 8, rng.randint(0, 40), rng.randint(0, 40), rng.choice([56, 57, 1400, 65527]) if rng.random() < 0.15 else 3])).hex()
         elif k == "vendor": m["vendor"] = ofgen.rint(rng, U32)
         elif k == "set_config": m.update(flags=rng.choice([0, 1, 2, 3, ofgen.rint(rng, U16)]), miss=ofgen.rint(rng, U16))
         elif k == "queue_get_config_request": m["port"] = self._port_choice(rng, st)
